@@ -248,3 +248,88 @@ Example extend_example :
   l_globals (extend ex_derived ex_base) = [(["x"], ex_fn); (["kept"; "f"], ex_ro)] /\
   l_versions (extend ex_derived ex_base) = [Lua53].
 Proof. vm_compute. repeat split. Qed.
+
+(** ---- structs ---- *)
+
+Definition slookup (s : string) (m : list (string * fmap)) : option fmap := lookup string_dec s m.
+
+(** structs: BTreeMap::extend inserts the base's structs over the derived library's, so for a struct name
+    both define the *base's* definition is the effective one (unlike globals) *)
+Definition spec_struct (d b : list (string * fmap)) (s : string) : option fmap :=
+  match slookup s b with Some m => Some m | None => slookup s d end.
+
+Definition wf_structs (l : lib) : bool := nodupb string_dec (keys (l_structs l)).
+
+Lemma extend_structs_lookup d b s :
+  wf_structs b = true ->
+  slookup s (l_structs (extend d b)) = spec_struct (l_structs d) (l_structs b) s.
+Proof.
+  intros Hb. unfold slookup, spec_struct, slookup. cbn [extend l_structs]. unfold extend_structs.
+  rewrite lookup_overwrite, lookup_rev_nodup; [reflexivity|].
+  apply nodupb_NoDup in Hb. exact Hb.
+Qed.
+
+Lemma insert_skeys_nodup {V} (k : string) (v : V) m :
+  NoDup (keys m) -> NoDup (keys (insert string_dec k v m)).
+Proof.
+  induction m as [|[k0 v0] m IH]; intros Hnd; cbn [insert].
+  - cbn. constructor; [intros []|constructor].
+  - inversion Hnd as [|? ? Hnotin Hnd']; subst.
+    destruct (string_dec k k0) as [->|Hne]; [exact Hnd|].
+    cbn. constructor; [|auto].
+    intro Hin. apply Hnotin.
+    clear -Hin Hne. induction m as [|[a c] m IHm]; cbn [insert keys map fst] in *.
+    + destruct Hin as [H|[]]. congruence.
+    + destruct (string_dec k a) as [->|Hne2]; cbn [keys map fst] in *.
+      * exact Hin.
+      * destruct Hin as [H|H]; [left; exact H|right; auto].
+Qed.
+
+Lemma overwrite_skeys_nodup {V} (m ups : list (string * V)) :
+  NoDup (keys m) -> NoDup (keys (overwrite string_dec m ups)).
+Proof.
+  unfold overwrite. revert m. induction ups as [|[k v] ups IH]; intros m H; cbn [fold_left]; [exact H|].
+  apply IH. apply insert_skeys_nodup. exact H.
+Qed.
+
+Lemma extend_wf_structs d b : wf_structs d = true -> wf_structs (extend d b) = true.
+Proof.
+  unfold wf_structs. cbn [extend l_structs]. unfold extend_structs. intros Hd.
+  apply NoDup_nodupb. apply overwrite_skeys_nodup. apply nodupb_NoDup in Hd. exact Hd.
+Qed.
+
+(** along a base chain (most derived first) the *innermost* library that defines a struct name decides *)
+Fixpoint spec_chain_struct (first : list (string * fmap)) (rest : list (list (string * fmap))) (s : string) : option fmap :=
+  match rest with
+  | [] => slookup s first
+  | b :: rest' => match spec_chain_struct b rest' s with Some m => Some m | None => slookup s first end
+  end.
+
+Lemma resolve_chain_wf_structs first rest :
+  wf_structs first = true -> wf_structs (resolve_chain first rest) = true.
+Proof.
+  destruct rest as [|b rest]; cbn [resolve_chain]; intros H; [exact H|]. apply extend_wf_structs. exact H.
+Qed.
+
+Lemma extend_chain_structs first rest s :
+  forallb wf_structs rest = true ->
+  slookup s (l_structs (resolve_chain first rest)) = spec_chain_struct (l_structs first) (map l_structs rest) s.
+Proof.
+  revert first. induction rest as [|b rest IH]; intros first Hr; cbn [resolve_chain map spec_chain_struct]; [reflexivity|].
+  cbn [forallb] in Hr. apply andb_true_iff in Hr as [Hb Hr].
+  rewrite extend_structs_lookup by (apply resolve_chain_wf_structs; exact Hb).
+  unfold spec_struct. rewrite IH by exact Hr. reflexivity.
+Qed.
+
+Definition ex_sd : lib :=
+  {| l_base := Some "b"; l_name := None; l_globals := [];
+     l_structs := [("S", [(["own"], ex_ro)]); ("D", [(["d"], ex_ro)])]; l_versions := [] |}.
+Definition ex_sb : lib :=
+  {| l_base := None; l_name := None; l_globals := [];
+     l_structs := [("S", [(["base"], ex_ro)]); ("B", [(["b"], ex_ro)])]; l_versions := [] |}.
+Example extend_structs_example :
+  wf_structs ex_sb = true /\
+  slookup "S" (l_structs (extend ex_sd ex_sb)) = Some [(["base"], ex_ro)] /\
+  slookup "D" (l_structs (extend ex_sd ex_sb)) = Some [(["d"], ex_ro)] /\
+  slookup "B" (l_structs (extend ex_sd ex_sb)) = Some [(["b"], ex_ro)].
+Proof. vm_compute. repeat split. Qed.
